@@ -302,3 +302,85 @@ pub fn c01_reentrant_user(rep: &mut Report, prop: &str) {
         return;
     }
 }
+
+/// C09: a loader called from a destructor while the thread is unwinding from an unrelated panic ("reload the index
+/// when the worker dies"): the backing memory must stay allocated and unchanged until the structure is dropped, and
+/// be released once, exactly as on an ordinary call.
+pub fn c09_load_during_unwinding(rep: &mut Report, tmp: &std::path::Path) {
+    use std::sync::{Arc, Mutex};
+    let n = 5000u64;
+    let value: Vec<u64> = (0..n).map(|i| i * 7 + 3).collect();
+    let path = tmp.join(format!("c09-unwind-{}.bin", std::process::id()));
+    if value.store(&path).is_err() {
+        return;
+    }
+    let loaders: &[&str] = if cfg!(feature = "mmap") { &["load_full", "load_mem", "load_mmap", "mmap"] } else { &["load_full", "load_mem"] };
+    for which in loaders {
+        rep.evaluations += 1;
+        rep.class("loader-called-from-a-destructor-during-unwinding");
+        rep.nontrivial.insert(crate::report::hash_case(&["load-unwinding", which], &vmodel::val::Val::Unit, 0));
+        struct Reload {
+            path: std::path::PathBuf,
+            which: &'static str,
+            expect: Vec<u64>,
+            out: Arc<Mutex<Option<Result<bool, String>>>>,
+        }
+        impl Drop for Reload {
+            fn drop(&mut self) {
+                let same = |s: &[u64], e: &[u64]| s == e;
+                let churn = || {
+                    // memory of the size of the region is allocated, dirtied and freed in between
+                    for _ in 0..4 {
+                        let junk = vec![0xAAu8; 40_064];
+                        std::hint::black_box(&junk);
+                    }
+                };
+                let r: Result<bool, String> = (|| match self.which {
+                    "load_full" => {
+                        let v = <Vec<u64>>::load_full(&self.path).map_err(|e| format!("{:#}", e))?;
+                        Ok(same(&v, &self.expect))
+                    }
+                    "load_mem" => {
+                        let c = <Vec<u64>>::load_mem(&self.path).map_err(|e| format!("{:#}", e))?;
+                        let a = same(&c, &self.expect);
+                        churn();
+                        Ok(a && same(&c, &self.expect))
+                    }
+                    #[cfg(feature = "mmap")]
+                    "load_mmap" => {
+                        let c = <Vec<u64>>::load_mmap(&self.path, Flags::empty()).map_err(|e| format!("{:#}", e))?;
+                        let a = same(&c, &self.expect);
+                        churn();
+                        Ok(a && same(&c, &self.expect))
+                    }
+                    #[cfg(feature = "mmap")]
+                    "mmap" => {
+                        let c = <Vec<u64>>::mmap(&self.path, Flags::empty()).map_err(|e| format!("{:#}", e))?;
+                        let a = same(&c, &self.expect);
+                        churn();
+                        Ok(a && same(&c, &self.expect))
+                    }
+                    _ => Ok(true),
+                })();
+                *self.out.lock().unwrap() = Some(r);
+            }
+        }
+        let out = Arc::new(Mutex::new(None));
+        let heap0 = crate::alloc::live_bytes();
+        let g = Reload { path: path.clone(), which, expect: value.clone(), out: out.clone() };
+        let _ = std::panic::catch_unwind(std::panic::AssertUnwindSafe(move || {
+            let _g = g;
+            panic!("unrelated failure of the worker");
+        }));
+        let heap1 = crate::alloc::live_bytes();
+        let got = out.lock().unwrap().take();
+        match got {
+            Some(Ok(true)) if !crate::alloc::enabled() || (heap1 - heap0).abs() < 4096 => {}
+            other => {
+                rep.failures.push(failure("C09", "loader-during-unwinding", format!("{} called from a destructor while the thread unwinds from an unrelated panic: expected the stored data, stable until dropped and released once; got {:?}, live heap changed by {} bytes", which, other, heap1 - heap0)));
+                break;
+            }
+        }
+    }
+    std::fs::remove_file(&path).ok();
+}
